@@ -1124,7 +1124,12 @@ def run_isohist(inp):
         M = toarr(st["M"])
         op = st["op"]
         # keep the history well conditioned: cond(sl2_to_so21(A)) grows like |A|^4, and inv / sqrt then lose digits legitimately
-        if op in ("mul_right", "mul_left") and max(np.max(np.abs(cur @ M)), np.max(np.abs(M @ cur))) > 12:
+        # (soak false alarm, seed stream anchor-1: a `setitem` had installed a lift with entries ~4e3, a later `inv` of its
+        #  SO(2,1) image (entries ~2e7, condition ~1e15) legitimately lost all but two digits.)  The oracle claims nothing
+        #  about products or inverses taken *from* a lift larger than 12 either: those steps become `set` as well.
+        if op in ("mul_right", "mul_left") and max(np.max(np.abs(cur @ M)), np.max(np.abs(M @ cur)), np.max(np.abs(M))) > 12:
+            op = "set"
+        if op in ("mul_right", "mul_left", "inv") and np.max(np.abs(cur)) > 12:
             op = "set"
         what = "step %d: %s" % (i, op)
         if op == "mul_right":           # (X @ Y).proj_data = Y.data · X.data, i.e. the lift of X @ Y is lift(X)·lift(Y)
